@@ -557,7 +557,7 @@ type siteCase struct {
 	Plan   *gen.Plan `json:"plan,omitempty"`
 	Pseudo float64   `json:"pseudocount"`
 	Log    bool      `json:"log"`
-	Norm   int       `json:"normalization"` // 0 none, 1 frequency, others: error expected
+	Norm   int       `json:"normalization"` // 0 none, 1 frequency, 2 by alignment frequency, 3 by uniform frequency, others: error expected
 }
 
 func naiveEntropy(cells []byte, removeGaps bool) float64 {
@@ -601,7 +601,7 @@ func checkSiteMeasures(c siteCase) (o pbt.Outcome, err error) {
 }
 
 func siteMeasuresOn(al align.Alignment, a gen.Ali, c siteCase, o pbt.Outcome) (pbt.Outcome, error) {
-	n, l := len(a.Rows), a.Length()
+	l := a.Length()
 	w := wildOf(a.Alphabet)
 	other := byte('X')
 	if w == 'X' {
@@ -747,7 +747,14 @@ func siteMeasuresOn(al align.Alignment, a gen.Ali, c siteCase, o pbt.Outcome) (p
 	// PSSM
 	for rep := 0; rep < 2; rep++ {
 		pssm, e := al.Pssm(c.Log, c.Pseudo, c.Norm)
-		if c.Norm != align.PSSM_NORM_NONE && c.Norm != align.PSSM_NORM_FREQ {
+		if c.Norm == align.PSSM_NORM_DATA && !allAlphabetCharsPresent(a) {
+			// the frequency of a character that does not occur in the alignment is 0: the division is
+			// undefined (the code reports an error): not judged
+			o.Ambiguous++
+			o.Class("pssm:norm=2:character-absent-not-judged")
+			break
+		}
+		if c.Norm < align.PSSM_NORM_NONE || c.Norm > align.PSSM_NORM_UNIF {
 			if e == nil {
 				return o, fmt.Errorf("Pssm with the unknown normalisation %d returns no error", c.Norm)
 			}
@@ -773,14 +780,8 @@ func siteMeasuresOn(al align.Alignment, a gen.Ali, c siteCase, o pbt.Outcome) (p
 						cnt++
 					}
 				}
-				want := float64(cnt) + c.Pseudo
-				if c.Norm == align.PSSM_NORM_FREQ {
-					want = want / (float64(n) + float64(len(chars))*c.Pseudo)
-				}
-				if c.Log {
-					want = math.Log2(want)
-				}
-				if !eqF(v[j], want, 1e-12) {
+				want, alt := pssmWant(a, chars, chars[k], cnt, c.Pseudo, c.Norm, c.Log)
+				if !eqF(v[j], want, 1e-12) && !eqF(v[j], alt, 1e-12) {
 					return o, fmt.Errorf("Pssm(log=%v, pseudo=%v, norm=%d)[%q][%d] = %v, definition gives %v (column %q)", c.Log, c.Pseudo, c.Norm, chars[k], j, v[j], want, col(a, j))
 				}
 			}
@@ -814,7 +815,57 @@ func TestSiteMeasures(t *testing.T) {
 		}
 		c.Pseudo = rapid.SampledFrom([]float64{0, 0, 0.5, 1, 2.25}).Draw(t, "pseudo")
 		c.Log = rapid.Bool().Draw(t, "log")
-		c.Norm = rapid.SampledFrom([]int{1, 1, 0, 1, 7, -1}).Draw(t, "norm")
+		c.Norm = rapid.SampledFrom([]int{1, 3, 0, 2, 1, 7, -1}).Draw(t, "norm")
 		return c
 	}, checkSiteMeasures)
+}
+
+// pssmWant: the documented value of one PSSM cell (docs/commands/compute.md): raw count (0), column
+// frequency (count+pseudo)/(n+K*pseudo) (1), the same divided by the frequency of the character in the
+// whole alignment (2) or by the uniform frequency 1/K (3); log2 on request. For (2) the documentation
+// does not say over what the alignment frequency is taken: over the cells holding a character of the
+// alphabet (want) or over all cells (alt).
+func pssmWant(a gen.Ali, chars string, ch byte, cnt int, pseudo float64, norm int, log bool) (want, alt float64) {
+	n, k := float64(len(a.Rows)), float64(len(chars))
+	want = float64(cnt) + pseudo
+	if norm != align.PSSM_NORM_NONE {
+		want /= n + k*pseudo
+	}
+	alt = want
+	switch norm {
+	case align.PSSM_NORM_UNIF:
+		want *= k
+		alt = want
+	case align.PSSM_NORM_DATA:
+		all := foldedCountsOf(a)
+		inAlphabet := 0
+		for i := 0; i < len(chars); i++ {
+			inAlphabet += all[chars[i]]
+		}
+		want /= float64(all[ch]) / float64(inAlphabet)
+		alt /= float64(all[ch]) / float64(len(a.Rows)*a.Length())
+	}
+	if log {
+		want, alt = math.Log2(want), math.Log2(alt)
+	}
+	return
+}
+
+func foldedCountsOf(a gen.Ali) map[uint8]int {
+	var all []byte
+	for _, r := range a.Rows {
+		all = append(all, r.Seq...)
+	}
+	return naiveCounts(all)
+}
+
+func allAlphabetCharsPresent(a gen.Ali) bool {
+	all := foldedCountsOf(a)
+	chars := alphabetChars(a.Alphabet)
+	for i := 0; i < len(chars); i++ {
+		if all[chars[i]] == 0 {
+			return false
+		}
+	}
+	return true
 }
